@@ -99,6 +99,10 @@ inductive Out
   /-- fuel or oracle exhausted, or the oracle proposed a kind outside the `havoc` set -/
   | stuck
 
+def Out.panicSite : Out → Option Site
+  | .panic s => some s
+  | _ => none
+
 /-- Fuel-bounded execution.  Every node costs one unit of fuel, so a single induction on
 the fuel covers all recursive calls. -/
 def exec : Nat → Stmt → CState → Out
